@@ -30,6 +30,7 @@ def run(ctx):
         if len(c["Sources"]) != 2:
             continue
         consts = dict(c, FixD6=True, EmitEdges=True)
+        consts.setdefault("AllowDup", False)
         cfg = vlib.cfg_text(constants=consts, view="MCView", action_constraints=["PrintEdge"])
         out = ctx.path("transfer_%s.json" % name)
         gen, text = vlib.tlc_pipe(ctx, "MC_OrswotOps", cfg, "gen_" + name,
